@@ -61,6 +61,8 @@ def hostile_scalar(rng, g):
             k0 = rng.choice([0, 1, h - 1, h, h + 1, rng.getrandbits(127), (1 << 126), rng.getrandbits(64)])
             k1 = rng.choice([0, 1, h - 1, h, h + 1, rng.getrandbits(127), (1 << 126), rng.getrandbits(64)])
             s0 = rng.choice([1, -1]); s1 = rng.choice([1, -1])
+            if rng.randrange(4) == 0:
+                k1 = k0
             return (s0 * k0 + s1 * k1 * mu) % n, "endo-extreme-halves"
         return rng.randrange(n), "random"
     if t == 7:
